@@ -10,7 +10,7 @@ import math
 import numpy as _np
 import z3
 
-from .values import SV, SB, SIdx, lift, _is_special
+from .values import SV, SB, SIdx, lift, _is_special, arith_pair, int_sorted
 
 EQ_TOL = 1e-9
 
@@ -56,7 +56,11 @@ def _cmp(a, b, sym, conc):
     if _symb(a) or _symb(b):
         if _is_special(a) or _is_special(b):
             return conc(float(a) if not _symb(a) else _mid(a, b), float(b) if not _symb(b) else _mid(b, a))
-        return z3.simplify(sym(E(a), E(b)))
+        if not isinstance(a, z3.ExprRef) and not isinstance(b, z3.ExprRef):
+            ta, tb = arith_pair(a, b)
+        else:
+            ta, tb = E(a), E(b)
+        return z3.simplify(sym(ta, tb))
     return conc(a, b)
 
 
@@ -157,6 +161,10 @@ def Ite(c, x, y):
     c = C(c)
     if isinstance(c, bool):
         return x if c else y
+    x, y = _sc(x), _sc(y)
+    if not isinstance(x, z3.ExprRef) and not isinstance(y, z3.ExprRef):
+        tx, ty = arith_pair(x, y)
+        return SV(z3.If(c, tx, ty), is_int=tx.is_int())
     return SV(z3.If(c, E(x), E(y)))
 
 
@@ -178,7 +186,10 @@ def vsum(xs):
     r = 0
     for x in xs:
         x = _sc(x)
-        if _symb(r) or _symb(x):
+        if (_symb(r) or _symb(x)) and not isinstance(r, z3.ExprRef) and not isinstance(x, z3.ExprRef):
+            tr, tx = arith_pair(r, x)
+            r = SV(tr + tx, is_int=tr.is_int())
+        elif _symb(r) or _symb(x):
             r = SV(E(r) + E(x))
         else:
             r = r + x
